@@ -1,4 +1,4 @@
-package main
+package hz
 
 import (
 	"bufio"
@@ -46,11 +46,11 @@ func I64(x int64) json.Number  { return json.Number(fmt.Sprintf("%d", x)) }
 //	{"k":"oracle","ok":bool,"key":"...","detail":...}   direct property oracle on the implementation
 //	{"k":"dist", ...}                                   generator distribution counters
 type Out struct {
-	w     *bufio.Writer
-	f     *os.File
+	W     *bufio.Writer
+	F     *os.File
 	dist  map[string]int
-	cases int
-	fails int
+	Cases int
+	Fails int
 }
 
 func NewOut(path string) *Out {
@@ -58,33 +58,33 @@ func NewOut(path string) *Out {
 	if err != nil {
 		panic(err)
 	}
-	return &Out{w: bufio.NewWriterSize(f, 1<<20), f: f, dist: map[string]int{}}
+	return &Out{W: bufio.NewWriterSize(f, 1<<20), F: f, dist: map[string]int{}}
 }
-func (o *Out) emit(m M) {
+func (o *Out) Emit(m M) {
 	b, err := json.Marshal(m)
 	if err != nil {
 		panic(err)
 	}
-	o.w.Write(b)
-	o.w.WriteByte('\n')
+	o.W.Write(b)
+	o.W.WriteByte('\n')
 }
 func (o *Out) Case(fn string, in, out interface{}, tag string) {
-	o.cases++
+	o.Cases++
 	o.dist["case:"+fn+":"+tag]++
-	o.emit(M{"k": "case", "fn": fn, "in": in, "out": out, "tag": tag})
+	o.Emit(M{"k": "case", "fn": fn, "in": in, "out": out, "tag": tag})
 }
 
 // Oracle records the verdict of the property's own statement evaluated on the implementation.
 func (o *Out) Oracle(ok bool, key string, detail interface{}) {
 	o.dist["oracle:"+key]++
 	if !ok {
-		o.fails++
-		o.emit(M{"k": "oracle", "ok": false, "key": key, "detail": detail})
+		o.Fails++
+		o.Emit(M{"k": "oracle", "ok": false, "key": key, "detail": detail})
 	}
 }
 func (o *Out) Count(key string) { o.dist[key]++ }
 func (o *Out) Close() {
-	o.emit(M{"k": "dist", "dist": o.dist})
-	o.w.Flush()
-	o.f.Close()
+	o.Emit(M{"k": "dist", "dist": o.dist})
+	o.W.Flush()
+	o.F.Close()
 }
